@@ -237,6 +237,23 @@ fn ref_case(line: &str) -> String {
     match r { Ok(s) => s, Err(_) => "{\"panic\":1}".to_string() }
 }
 
+/// a sequence of updates through the paths ONE query returned: {"q","doc","news":[v..]} -> paths, which writes took place, document after
+fn refseq_case(line: &str) -> String {
+    let case: Value = match serde_json::from_str(line) { Ok(v) => v, Err(e) => return format!("{{\"badjson\":\"{}\"}}", e) };
+    let mut doc = case["doc"].clone();
+    let q = case["q"].as_str().unwrap_or("").to_string();
+    let news: Vec<Value> = case["news"].as_array().cloned().unwrap_or_default();
+    let r = std::panic::catch_unwind(move || {
+        let paths = match doc.query_only_path(&q) { Ok(p) => p, Err(_) => return "{\"err\":1}".to_string() };
+        let mut wrote = vec![];
+        for (i, p) in paths.iter().enumerate() {
+            if let Some(slot) = doc.reference_mut(p.clone()) { *slot = news[i % news.len().max(1)].clone(); wrote.push("true") } else { wrote.push("false") }
+        }
+        format!("{{\"paths\":[{}],\"wrote\":[{}],\"after\":{}}}", paths.iter().map(|p| cps(p)).collect::<Vec<_>>().join(","), wrote.join(","), canon(&doc))
+    });
+    match r { Ok(s) => s, Err(_) => "{\"panic\":1}".to_string() }
+}
+
 /// a history: {"docs":[..], "queries":[..], "ops":[[qi,di],..], "threads":N}; every op evaluated in order
 /// with queries parsed once, again by string, and again concurrently from N threads sharing Arcs
 fn hist_case(line: &str) -> String {
@@ -530,6 +547,7 @@ fn main() {
             "eval" => eval_case(&line),
             "regex" => regex_case(&line),
             "ref" => ref_case(&line),
+            "refseq" => refseq_case(&line),
             "hist" => hist_case(&line),
             "generic" => generic_case::<false>(&line),
             "generic2" => generic_case::<true>(&line),
